@@ -34,7 +34,10 @@ RouteCasesOK == { c \in RouteCases : DrawOK(c.d, c.nd) }
 StaleSets == { S \in SUBSET Svc : Cardinality(S) <= 2 }
 WdCases == { [ stale |-> S, verdicts |-> { WdVerdict(nd, S) : nd \in Nodes }, demanded |-> (S # {}) ] : S \in StaleSets }
 
-Export == OutFile = "" \/ JsonSerialize(OutFile, [ route |-> RouteCasesOK, wd |-> WdCases ])
+\* configured ParallelNum -> workers per pool
+ClampCases == { [ p |-> p, w |-> Clamp(p) ] : p \in -2..4 }
+
+Export == OutFile = "" \/ JsonSerialize(OutFile, [ route |-> RouteCasesOK, wd |-> WdCases, clamp |-> ClampCases ])
 ASSUME Export
 
 CInit == Init
